@@ -285,7 +285,7 @@ class Program:
             if m is not None: return m
         else:
             segs = key.split('::')
-            for k in range(1, len(segs) - 1):
+            for k in range(1, len(segs)):
                 m = self.models.get('::'.join(segs[k:]))
                 if m is not None: return m
         for rx_, h in self.model_patterns:
